@@ -314,7 +314,18 @@ func runC16(c *core.Ctx) {
 		for _, cv := range callVerticesSuffix(g, ".inheritKey") {
 			if k, _ := core.StringConst(info, cv.Call.Args[0]); k == "AA" {
 				conds := dominatingConds(g, cv.V)
-				o.Require(len(conds) == 1 && strings.ReplaceAll(conds[0], " ", "") == "v<pdf.V1_3", "/AA is hoisted under %v, the reader inherits it only before PDF 1.3", conds)
+				below13 := false
+				for _, a := range g.DominatingAtoms(cv.V) {
+					// v < pdf.V1_3, directly or through a named test
+					if cmp, isCmp := a.AsCmp(); isCmp && cmp.Op == token.LSS {
+						if ro := core.ObjOf(info, cmp.R); ro != nil && ro.Name() == "V1_3" {
+							if lo, isVar := core.ObjOf(info, cmp.L).(*types.Var); isVar && core.IsNamed(lo.Type(), "pdf", "Version") {
+								below13 = true
+							}
+						}
+					}
+				}
+				o.Require(below13, "/AA is hoisted under %v, the reader inherits it only before PDF 1.3", conds)
 			}
 		}
 		gi := c.Prog.Func(pk, "getInheritable")
@@ -522,9 +533,38 @@ func runC16(c *core.Ctx) {
 					return true
 				}
 				regs := 0
+				held := map[types.Object]bool{} // locals bound once to the method value (update := res.Update)
+				isUpdate := func(e ast.Expr) bool {
+					se, ok := ast.Unparen(e).(*ast.SelectorExpr)
+					return ok && se.Sel.Name == "Update" && core.ExprStr(se.X) == target
+				}
 				ast.Inspect(fn.Decl, func(mm ast.Node) bool {
-					if se, ok := mm.(*ast.SelectorExpr); ok && se.Sel.Name == "Update" && core.ExprStr(se.X) == target {
-						regs++
+					if as, ok := mm.(*ast.AssignStmt); ok && len(as.Lhs) == len(as.Rhs) {
+						for i, r := range as.Rhs {
+							if obj := core.ObjOf(info, as.Lhs[i]); obj != nil && isUpdate(r) && len(core.AssignsTo(info, fn.Decl, obj)) == 1 {
+								held[obj] = true
+							}
+						}
+					}
+					return true
+				})
+				ast.Inspect(fn.Decl, func(mm ast.Node) bool {
+					switch x := mm.(type) {
+					case *ast.AssignStmt:
+						// the binding itself is not a registration
+						for i, r := range x.Rhs {
+							if i < len(x.Lhs) && isUpdate(r) && held[core.ObjOf(info, x.Lhs[i])] {
+								regs--
+							}
+						}
+					case *ast.SelectorExpr:
+						if isUpdate(x) {
+							regs++
+						}
+					case *ast.Ident:
+						if held[info.Uses[x]] {
+							regs++
+						}
 					}
 					return true
 				})
